@@ -44,7 +44,7 @@
 (* Exempt = TRUE excuses exactly these two.                                *)
 (*                                                                         *)
 (* Configurations (MC_ListSortImpl*.cfg):                                  *)
-(*   _quick         <= 3 words / 7 tokens / 1 comment line x 1 call        *)
+(*   _quick         <= 3 words / 6 tokens / 1 comment line x 1 call        *)
 (*   (none)         <= 3 words / 8 tokens / 2 comment lines x 1 call,      *)
 (*                  every renaming of the words, 7 key/reverse pairs       *)
 (*   _two / _deep   2 calls on <= 6 tokens / 3 calls on <= 2 words, 5      *)
@@ -64,7 +64,8 @@
 (* first comment) -> WriteBack (_neg_nl), FmtNoTrailSep (formatter without *)
 (* the trailing separator) -> ShapeOK (_neg_fmt).                          *)
 (* The harness generates the emission configurations (Emit = TRUE, a slice *)
-(* of the layouts chosen by the seed, MinVals).                            *)
+(* of the layouts chosen by the seed, MinVals; the invariants are checked  *)
+(* there as well, so every emitted prediction satisfied them).             *)
 (***************************************************************************)
 EXTENDS ListSort, Json
 
